@@ -599,7 +599,7 @@ def correspond(ctx):
     ctx.jobs = jobs(ctx.tier, ctx.seed)
     dis = []
     parts = (_corpus, _counter_cases, _rr_cases, _saturation_case, c08lib.soc_fabric_cases, c08lib.soc_directed_cases,
-             c08lib.check_params_cases, c08lib.id_width_cases,
+             c08lib.check_params_cases, c08lib.id_width_cases, c08lib.timeout_service_cases,
              lambda c: c08lib.local_rules_cases(c, MAPS, _region_map, quick=c.tier == "quick"))
     for part in parts:
         try:
@@ -901,7 +901,10 @@ def replay(ctx, payload):
     if inst is None:
         print("instance %r not found" % fi.get("instance"))
         return 2
-    r = _replay(inst, trace, hyp=fi.get("hyp", True))
+    if fi.get("monitor_kind") == "timeout-service":
+        r = c08lib.replay_timeout_service(inst, trace)
+    else:
+        r = _replay(inst, trace, hyp=fi.get("hyp", True))
     if r:
         print("cycle %d: %s" % r)
         print("VIOLATION property=%s replay=(replayed)" % ctx.prop)
